@@ -104,6 +104,8 @@ class Body:
         self.impl_trait_full = j.get("impl_trait_full")
         self.trait_default_of = j.get("trait_default_of")
         self.dead = j.get("dead", False)
+        self.helper = j.get("helper", False)                       # not a function of the reference tree
+        self.inlined_everywhere = j.get("inlined_everywhere", False)  # every use is a direct call that was inlined
         self.unsafe = j.get("unsafe", False)
         m = mir if mir is not None else j["mir"]
         self.arg_count = m["arg_count"]
@@ -175,6 +177,10 @@ class Facts:
     def __init__(self, path):
         with open(path) as fh:
             d = json.load(fh)
+        from . import inline
+        if os.environ.get("GSA_NO_INLINE") != "1":
+            inline.apply(d)
+        self.inlined = d.get("inlined", {})
         self.path = path
         self.crate = d["crate"]
         self.types = d["types"]
